@@ -95,7 +95,7 @@ FAMILIES["wire"] = {
                    42: "model rejected the packet", 43: "panic outcome differs",
                    200: "C12: the receiver did not recover exactly the sender's message(s)",
                    210: "C15: packet does not open under the primary key with the label as associated data", 211: "C15: message bytes visible in clear on the wire",
-                   220: "C16: a packet carrying another label (or a label header while the check is delegated) was acted on",
+                   221: "C16: a packet carrying the receiver's own label was not accepted", 220: "C16: a packet carrying another label (or a label header while the check is delegated) was acted on",
                    230: "C14: tampered/foreign traffic was acted on with a plaintext different from the original",
                    231: "C14: version byte of genuine ciphertext flipped: a different plaintext was accepted",
                    232: "C14: traffic sealed under another label (associated data) was acted on",
